@@ -333,6 +333,14 @@ func New(ctx context.Context, schema Schema, opts *Opts) *Machine {
 	m.ctxParent = ctx
 	// graceful internal context
 	m.ctx, m.cancel = context.WithCancel(context.Background())
+	// without a handler loop nobody else watches the parent context
+	stopWatch := context.AfterFunc(ctx, func() {
+		if !m.handlerLoopRunning.Load() {
+			m.Dispose()
+		}
+	})
+	m.disposeHandlers = append(m.disposeHandlers,
+		func(string, context.Context) { stopWatch() })
 
 	if parent != nil {
 		m.parentId = parent.Id()
